@@ -424,11 +424,19 @@ def units(tier, seed):
         us.append(unit_pointwise_norm(p))
     us.append(unit_pointwise_norm(2, k=3))
     us.append(unit_operator_pool_bounded())
+    from contracts import blocklib
+    us.extend(blocklib.units('derivative'))
     us.append(unit_canary())
     return us
 
 
 def replay(ob):
+    if ob.get('unit', '').startswith('block/'):
+        from contracts import blocklib
+        try:
+            return blocklib.native_replay(ob)
+        except Exception as e:
+            return {'reproduced': False, 'detail': 'replay harness error: %r' % (e,)}
     if ob.get('unit', '').startswith('operator-pool/'):
         from contracts import oppool
         try:
